@@ -1420,6 +1420,8 @@ class ProgramData:
                         set_to = True
                         flag_name = option_value
                     else:
+                        if option_value.count("=") != 1:
+                            raise RuntimeError("Invalid flag setting " + option_value)
                         flag_name, set_to = option_value.split("=")
                         set_to = set_to in ["yes", "on"]
                     option_value = flag_name
@@ -1438,7 +1440,10 @@ class ProgramData:
                 exit(0)
             elif option_name in ["d", "dump"]:
                 for i in option_value.split(","):
-                    cls._dump.append(DebugDumpable(i))
+                    try:
+                        cls._dump.append(DebugDumpable(i))
+                    except ValueError as e:
+                        raise RuntimeError("Unknown dump target " + i) from e
             elif option_name == "dump-prefix":
                 cls.dump_prefix = option_value
             elif option_name in ["t", "dry-run"]:
